@@ -1,6 +1,6 @@
 SPECIFICATION Spec
 CONSTANTS MaxNum = 3
-  Vals = {"a"}
+  Vals = {"a", "b"}
   OBJSTM = FALSE
   SEEKABLE = FALSE
   MaxOps = 4
